@@ -383,7 +383,17 @@ class Sigma:
         from pyvc.interp import PyExc
         net = Obj(netcls, {}, fresh=True, label="network")
         mem = I.find_member(netcls, "__init__")
-        I.call_function(mem[1], [net, sc], {})
+        from pyvc.values import EngineLimit
+        try:
+            I.call_function(mem[1], [net, sc], {})
+        except EngineLimit:
+            if not I.ext_state.get("tolerate_ctor_limit"):
+                raise
+            # run-time fallback only: the real object is built natively; here a carrier of the scenario's fields suffices
+            net = Obj(netcls, {k: I.getattr_value(sc, k) for k in ("hosts", "host_num_map", "subnets", "topology", "firewall",
+                                                                    "address_space", "address_space_bounds",
+                                                                    "sensitive_addresses", "sensitive_hosts")},
+                      fresh=True, label="network")
         net.fresh = False
         mark_preexisting(net)
         net.hidden = set()
